@@ -163,7 +163,7 @@ inductive Ev where
   | tick (d : Nat)                     -- time passes
   | lockTry (i ttl : Nat)              -- one iteration of `Lock`'s loop: `KV.Acquire`, on success `startLeaseRenewal`
   | renew (i ttl : Nat)                -- `renewLeaseOnce` from the ticker (every ttl/4)
-  | renewLock (i dur ttl : Nat)        -- `RenewLockLease(key, dur)` of an instance configured with lease TTL `ttl`
+  | renewLock (i : Nat) (dur : Int) (ttl : Nat)  -- `RenewLockLease(key, dur)` (any `time.Duration`, negative too) of an instance configured with lease TTL `ttl`
   | unlock (i : Nat)                   -- `Unlock`: LoadAndDelete the holder, `KV.Release(token)`
   deriving Repr
 
